@@ -15,7 +15,7 @@ def run(prop, tier):
     v = Verdict("C13", tier, "model_checking")
     sd = seed()
     t = TIERS[tier]
-    consts = dict(MaxPlace=t["MaxPlace"], MaxChan=2, BinChoices={1, 2}, NPts=t["NPts"], Settings=t["Settings"], Overrides={0}, EmitCases=True,
+    consts = dict(MaxPlace=t["MaxPlace"], MaxChan=2, MaxSamp=2, BinChoices={1, 2}, NPts=t["NPts"], Settings=t["Settings"], Overrides={0}, EmitCases=True,
                   EmitMod=t["EmitMod"], EmitRes=sd % t["EmitMod"])
     res = tlc.run("MC_HFGrad", tlc.make_cfg(consts, invariants=["GradLocal", "GEmit"]), workers=16, timeout=7200)
     if not res.ok:
